@@ -5,6 +5,7 @@ package c11
 import (
 	"bytes"
 	"fmt"
+	"sync"
 
 	"github.com/lugu/qiloop/bus"
 	"github.com/lugu/qiloop/bus/net"
@@ -78,7 +79,7 @@ func peer(c *vnet.MemConn, pl *peerLog, withEvents bool) {
 // family: nCalls concurrent calls; withSub adds a subscription, two
 // disconnect callbacks and events; localCloser adds a thread that closes the
 // client's endpoint.
-func body(nCalls int, withSub bool, localCloser bool) func() {
+func body(nCalls int, withSub bool, localCloser bool, waitingCallback bool) func() {
 	return func() {
 		cc, pc := vnet.NewPair("client", "peer")
 		kind := faultKinds[vrt.ChooseFree(len(faultKinds), "fault-kind")]
@@ -107,8 +108,17 @@ func body(nCalls int, withSub bool, localCloser bool) func() {
 		var events [][]byte
 		subClosed := false
 		var drain *vrt.Thread
+		var returned sync.WaitGroup
+		returned.Add(nCalls)
 		if withSub {
-			cl.OnDisconnect(func(err error) { disc[0]++ })
+			// the first callback waits for the calls in flight to come back (a
+			// callback may block: every handler is told independently)
+			cl.OnDisconnect(func(err error) {
+				if waitingCallback {
+					returned.Wait()
+				}
+				disc[0]++
+			})
 			cl.OnDisconnect(func(err error) { disc[1]++ })
 			_, ch, err := cl.Subscribe(3, 1, 77)
 			if err != nil {
@@ -131,6 +141,7 @@ func body(nCalls int, withSub bool, localCloser bool) func() {
 			workers = append(workers, vrt.GoWorker(fmt.Sprintf("caller%d", i), func() {
 				p, err := cl.Call(nil, 3, 1, uint32(100+i), []byte{res[i].arg})
 				res[i].payload, res[i].err, res[i].returned = p, err, true
+				returned.Done()
 			}))
 		}
 		if localCloser {
@@ -239,13 +250,15 @@ func threadName(i, nCalls int) string {
 }
 
 func init() {
-	reg.Register(&reg.Scenario{Property: "C11", Name: "one-call", Body: body(1, false, false), Quick: 2, Thorough: 4,
+	reg.Register(&reg.Scenario{Property: "C11", Name: "waiting-disconnect-callback", Body: body(2, true, false, true), Quick: 1, Thorough: 2,
+		Doc: "2 concurrent calls + subscription; the first OnDisconnect callback waits for the calls in flight to return; every fault kind at every I/O operation", MustFlag: []string{"fault-fired:eof"}})
+	reg.Register(&reg.Scenario{Property: "C11", Name: "one-call", Body: body(1, false, false, false), Quick: 2, Thorough: 4,
 		Doc:      "1 call; every fault kind at every I/O operation of the client stream",
 		MustFlag: []string{"all-calls-succeeded", "io:read-completed-while-own-write-in-progress", "fault-fired:err", "fault-fired:eof", "fault-fired:data+eof", "fault-fired:garbage", "fault-fired:short", "fault-fired:peerclose", "fault-fired:localclose"}})
-	reg.Register(&reg.Scenario{Property: "C11", Name: "two-calls", Body: body(2, false, false), Quick: 2, Thorough: 3,
+	reg.Register(&reg.Scenario{Property: "C11", Name: "two-calls", Body: body(2, false, false, false), Quick: 2, Thorough: 3,
 		Doc: "2 concurrent calls; every fault kind at every I/O operation", MustFlag: []string{"all-calls-succeeded", "fault-fired:err"}})
-	reg.Register(&reg.Scenario{Property: "C11", Name: "call-sub-disconnect", Body: body(1, true, false), Quick: 2, Thorough: 3,
+	reg.Register(&reg.Scenario{Property: "C11", Name: "call-sub-disconnect", Body: body(1, true, false, false), Quick: 2, Thorough: 3,
 		Doc: "1 call + Subscribe + 2 OnDisconnect callbacks + 2 events; every fault kind at every I/O operation", MustFlag: []string{"all-calls-succeeded", "fault-fired:eof"}})
-	reg.Register(&reg.Scenario{Property: "C11", Name: "two-calls-local-close", Body: body(2, true, true), Quick: 1, Thorough: 3,
+	reg.Register(&reg.Scenario{Property: "C11", Name: "two-calls-local-close", Body: body(2, true, true, false), Quick: 1, Thorough: 3,
 		Doc: "2 concurrent calls + subscription racing a local EndPoint.Close(); every fault kind at every I/O operation"})
 }
